@@ -607,6 +607,22 @@ def witness_bit(name="wbit"):
                      [("Perm", {"bit": True})])
 
 
+def witness_vis(name="wvis"):
+    """K_bit_receiver_shadow, receiver v"""
+    T = ("ident", "Vis")
+    return hand_spec(name, [("Vis", "uint8")],
+                     [[(["VisA"], T, [("shl", lit(1), ("iota",))]), (["VisB"], None, []), (["VisC"], None, [])]],
+                     [("Vis", {"bit": True})])
+
+
+def witness_iom(name="wiom"):
+    """K_bit_receiver_shadow, receiver i"""
+    T = ("ident", "IOMode")
+    return hand_spec(name, [("IOMode", "uint8")],
+                     [[(["IOModeR"], T, [("shl", lit(1), ("iota",))]), (["IOModeW"], None, [])]],
+                     [("IOMode", {"bit": True})])
+
+
 def witness_cint(name="wcint"):
     T = ("ident", "Color")
     return hand_spec(name, [("Color", "int")],
